@@ -9,6 +9,7 @@ import Frugal.Proofs.TypeKeyLemmas
 import Frugal.Props.Inst.F_facts_typeNodeCacheKeyed
 import Frugal.Props.Inst.F_skeleton_sharedWrites
 import Frugal.Props.Inst.F_facts_pointeeAfterLengthCheck
+import Frugal.Props.Inst.F_skeleton_descTable
 namespace Frugal.C07
 open Frugal
 /-- the required-field verdict is independent of the pooled presence set's prior contents -/
@@ -127,5 +128,13 @@ theorem no_other_process_wide_state :
     regenerated fact about `Decode`, the `staleProbe` stream looks for the bytes themselves -/
 theorem no_unwritten_pointee_published : Generated.facts.pointeeAfterLengthCheck = true :=
   Instances.facts_pointeeAfterLengthCheck
+
+/-- … and what the decoder creates it takes from cleared memory wherever a message can leave part of it
+    unwritten: the type nodes that decide typed (zeroed, scanned) versus raw allocation — every struct,
+    string, slice, map, pointer and array kind is typed — are, as full text, those of the tree the model was
+    written from (`newTType` is part of the descriptor-table fingerprint; R1 left pointer-free structs to the
+    uncleared allocator blocks: a sparse message then showed what the memory held before) -/
+theorem created_structs_come_from_cleared_memory : Generated.facts.descTableSkeleton = Skeleton.descTable :=
+  Instances.skeleton_descTable
 
 end Frugal.C07
